@@ -306,6 +306,47 @@ def walk (o : WalkOpts) (children : List Tree) : List Item :=
   let r := walkDir o false [] .tracked children
   r.emitted ++ r.held.filter o.emits
 
+/-! ## (3) the report: changes of index entries, then untracked and ignored entries -/
+
+/-- what is known about one stage-0 index entry: its path, the entry, what `lstat` said and whether
+hashing the worktree content gives a different id -/
+structure EntryFacts where
+  path : Bytes
+  e : Entry
+  l : Lookup
+  hashDiffers : Bool
+  deriving Repr
+
+/-- a worktree as `status` sees it (no submodules, no renames tracking, no pathspec) -/
+structure Worktree where
+  entries : List EntryFacts
+  /-- the index timestamp -/
+  tsS : Nat
+  tsN : Nat
+  o : Opts
+  /-- the directory tree with the per-entry facts -/
+  tree : List Tree
+
+inductive Line
+  /-- an index entry whose worktree file differs, with its status -/
+  | change (path : Bytes) (s : Status)
+  /-- an untracked or ignored entry -/
+  | other (path : Bytes) (s : DStatus)
+  deriving Repr, DecidableEq
+
+/-- does the status produce a record for the user? (`needsUpdate` only refreshes the index) -/
+def Status.reported : Status → Bool
+  | .unchanged | .needsUpdate | .submodule => false
+  | _ => true
+
+/-- everything `gix status` reports (`-unormal`, `--ignored`): per index entry its status if it is
+a change, then what the directory walk emits -/
+def report (w : Worktree) (wo : WalkOpts) : List Line :=
+  (w.entries.filterMap fun x =>
+    let s := entryStatus x.e x.l w.tsS w.tsN w.o x.hashDiffers
+    if s.reported then some (.change x.path s) else none) ++
+  (walk wo w.tree).map fun i => .other i.path i.status
+
 /-! ## driver -/
 
 def natsOf (l : List String) : Option (List Nat) := l.mapM String.toNat?
